@@ -316,7 +316,10 @@ pub fn run(tier: Tier) -> Report {
             crate::fam::with_defs(km, k1, k2, &mut |g| push(g));
             crate::fam::twin_words(tier.pick(3, 4), &mut |g| push(g));
             crate::fam::nested_words(&mut |g| push(g));
+            crate::fam::word_stars(&mut |g| push(g));
             crate::fam::redundant_twins(&mut |g| push(g));
+            crate::fam::kind_twins(&mut |g| push(g));
+            crate::fam::fallback_only_words(&mut |g| push(g));
             crate::fam::loop_segments(&["a", "b"], tier.pick(4, 4), &mut |g| push(g));
             for n in 2..=5 {
                 crate::fam::def_dags(n, &mut |g| push(g));
